@@ -258,16 +258,27 @@ def fail_provenance(fl, ix, defs, k_id):
                         res_id, the_if = s_["id"], a
             if res_id is not None:
                 break
+    guard_form = False
+    if res_id is None:
+        # `if res != Sat { ..; return/continue }` earlier in the block: the construction runs only under res == Sat
+        from .. import norm as norm_
+        for cnd, pol in norm_.path_conditions(ix, fl):
+            rid = is_sat_test(cnd, defs)
+            if rid is not None and pol:
+                res_id, guard_form = rid, True
     if res_id is None:
         return "outside a `res == CheckSatResponse::Sat` branch"
-    init = simple_let_init(defs, res_id)
+    init = simple_let_init(defs, res_id) or LET_INITS.get(res_id) or LET_INITS.get(canon(res_id))
     if init is None:
         return "under a Sat test of a value that is not a plain let-bound query result"
     q = strip_try(init)
     if not (q.get("k") == "call" and callee(q) == CHECK):
         return "under a Sat test of `%s`, which is not the result of check_assuming" % show(init)
-    d = defs[res_id][1]
-    if ix.regions[id(d)] != ix.regions[id(the_if)] or not ix.precedes(d, the_if):
+    d = (defs.get(res_id) or defs.get(canon(res_id)))[1]
+    if guard_form:
+        if not ix.precedes(d, fl) or ix.enclosing(d, ("for", "while", "loop")) is not ix.enclosing(fl, ("for", "while", "loop")):
+            return "under a Sat test of a query result from a different iteration/branch"
+    elif ix.regions[id(d)] != ix.regions[id(the_if)] or not ix.precedes(d, the_if):
         return "under a Sat test of a query result from a different iteration/branch"
     # the witness
     a = peel(fl["args"][0])
@@ -413,4 +424,31 @@ def queried(c_, ix, defs, sys_id, k_id):
                             return None, "the joint query drops some bad states: %s" % pn
                         return "joint", ""
         return None, "the joint query is not built from get_signal_at over all of sys.bad_states: %s" % show(e)[:200]
+    if names == ["unwrap"] or names == ["expect"] or not names:
+        # an accumulator folded in a loop: `let mut acc = None; for b in bads { let s = signal(b, k); acc = Some(match acc { None => s, Some(a) => ctx.or(a, s) }) }; acc.unwrap()`
+        acc = peel(base)
+        if acc.get("k") == "local":
+            aid = acc["id"]
+            d = defs.get(aid) or defs.get(canon(aid))
+            init0 = d[1].get("init") if d and d[0] == "let" else None
+            none0 = init0 is not None and (peel(init0).get("path") or callee(peel(init0)) or "").endswith("Option::None")
+            asg = [a_ for a_ in ix.nodes if a_.get("k") == "assign" and is_local(a_["l"], aid)]
+            if none0 and len(asg) == 1:
+                a_ = asg[0]
+                lp = ix.enclosing(a_, ("for",))
+                vb = binding_of_pat(lp["pat"]) if lp is not None else None
+                direct = lp is not None and not norm.path_conditions(ix, a_, upto=lp)
+                r = peel(a_["r"])
+                inner = peel(r["args"][0]) if r.get("k") == "ctor" and callee(r).endswith("Option::Some") and len(r.get("args", [])) == 1 else None
+                oe = norm.opt_elim(inner) if inner is not None else None
+
+                def is_sig(x):
+                    x = strip_try(resolve(peel(x)))
+                    return is_get_signal_at(x) and vb and is_local(x["args"][1], vb[1]) and is_local(x["args"][2], k_id)
+                if oe and direct and vb and sys_list(lp["iter"], defs, sys_id, "bad_states") and is_local(oe["scrut"], aid) and oe["none"] is not None and is_sig(oe["none"]) and oe["bind"] is not None:
+                    sm = strip_try(norm.tail_value(oe["some"]))
+                    if sm.get("k") == "mcall" and callee(sm) == CTX_OR and len(sm["args"]) == 2 and \
+                            ((is_local(sm["args"][0], oe["bind"]) and is_sig(sm["args"][1])) or (is_local(sm["args"][1], oe["bind"]) and is_sig(sm["args"][0]))):
+                        return "joint", ""
+                return None, "the joint query is folded in a loop, but not as `or` over get_signal_at of every element of sys.bad_states: %s" % show(a_)[:160]
     return None, "UNRECOGNISED query expression %s" % show(e)[:160]
